@@ -2,6 +2,7 @@ import PV.Model.Eval
 import PV.Model.Ops
 import PV.Model.Traverse
 import PV.Driver.GAOps
+import PV.Driver.CompileOps
 import PV.Driver.EqHashOps
 import PV.Driver.CCodeOps
 import PV.Driver.MemoOps
@@ -202,6 +203,7 @@ def handlers : List (Sexp → Option Sexp) :=
    , handleMemo
    , handleCCode
    , handleEqHash
+   , handleCompile
    -- HANDLERS
   ]
 
